@@ -1,0 +1,25 @@
+//go:build verif
+
+package tchannel
+
+// C07 "calls already accepted in either direction run to completion and their
+// results are delivered": two steps of the drain that the state-machine
+// contracts (verif_contracts.go) do not cover.
+
+// A handler's system error IS the call's result. It is handed to the
+// connection before the call's exchange is released: releasing the last
+// exchange of a draining connection moves it to closed, and a closed connection
+// sends nothing.
+//@ func (response *InboundCallResponse) SendSystemError(err error) (out error)
+//@   label result-is-queued-before-the-exchange-is-released
+//@   atcall doneSending errAttempts(response.conn) == old(errAttempts(response.conn)) + 1
+//@   property C07
+
+// A ping that arrives while the connection drains is answered like any other:
+// only a connection that is already closed treats it as a protocol error (a
+// protocol error fails every call still running on the connection).
+// (lastseen: the state the latest readState call returned, verif_contracts.go)
+//@ func (c *Connection) handlePingReq(frame *Frame)
+//@   label ping-on-a-draining-connection-is-not-a-protocol-error
+//@   atcall protocolError lastseen(c) == connectionClosed
+//@   property C07
